@@ -2,8 +2,8 @@ SPECIFICATION Spec
 CONSTANTS t1 = t1 t2 = t2 t3 = t3
   Threads <- T3
   MaxAttempts = 4
-  NeedsDrop = FALSE
-  PublishLate = FALSE
+  NeedsDrop = TRUE
+  PublishLate = TRUE
   SeedDropInside = FALSE
 INVARIANTS InitOnce SeedKept ExactlyOneArm DropOnce NoLeak RefOnlyWhenDone PublishedWhole
 CHECK_DEADLOCK FALSE
